@@ -23,7 +23,7 @@ func init() {
 func runC18(c *fw.Case) {
 	switch c.Index % 3 {
 	case 0:
-		mc := gen.Minters(c.R, "uc4e", 36)
+		mc := gen.Minters(c.R, gen.MintDenom(c.R), 36)
 		horizon := mc.Horizon(c.R)
 		bounds := mc.Schedule.Boundaries(horizon, 40)
 		times := gen.Partition(c.R, gen.Epoch, horizon, bounds, c.R.Intn(5), 40)
